@@ -149,6 +149,17 @@ Theorem model_satisfies_spec : forall host pre url job ops cs,
   calls_ok host pre job ops cs (run_calls p cs) = true.
 Proof. exact C15_proofs.model_satisfies_spec_lemma. Qed.
 
+(* the same over all HISTORIES of one Pusher: builder methods (Grouping with new or repeated names, Header,
+   BasicAuth, Format, Collector, ...) and Push/Add/Delete calls in any interleaving.  Every call passes the
+   checker given the builder calls made before it, so a Grouping between two requests is visible in the key of
+   the second request; after every builder call the recorded error is the first failure so far.
+   hist_wf: Grouping names over [A-Za-z0-9_:] and not "job", byte values, iteration orders are permutations. *)
+Theorem history_satisfies_spec : forall host pre url job,
+  p_url (new url job) = host ++ pre -> bytes job ->
+  forall h, hist_wf (new url job) h ->
+  hist_ok host pre job [] (new url job) h = true /\ hist_err_ok job [] (new url job) h = true.
+Proof. exact C15_proofs.history_satisfies_spec_lemma. Qed.
+
 (* ---- non-vacuity ---- *)
 Example example_roundtrip :
   p_err ex_p = None /\
@@ -178,6 +189,17 @@ Example example_sticky :
   map o_err (snd (run (run_builder (new (of_string "h") (of_string "j")) [BGrouping [255] []; BCollector true]) later)) =
     [CBuilder (EBadName [255]); CBuilder (EBadName [255])].
 Proof. exact C15_proofs.example_sticky_lemma. Qed.
+
+Example example_history :
+  let h := [HB (BGrouping (of_string "zone") (of_string "a")); HC [(of_string "zone", of_string "a")] (mkC KPush (Some []) (TStatus 200));
+            HB (BGrouping (of_string "zone") (of_string "b/c")); HC [(of_string "zone", of_string "b/c")] (mkC KDelete None (TStatus 202))] in
+  hist_ok (of_string "http://h") [] (of_string "j") [] (new (of_string "h") (of_string "j")) h = true /\
+  map (fun o => match o_req o with Some r => url_path (r_url r) | None => [] end)
+      (snd (run (new (of_string "h") (of_string "j"))
+                [OB (BGrouping (of_string "zone") (of_string "a")); OC (mkC KPush (Some []) (TStatus 200));
+                 OB (BGrouping (of_string "zone") (of_string "b/c")); OC (mkC KDelete None (TStatus 202))])) =
+    [of_string "/metrics/job/j/zone/a"; of_string "/metrics/job/j/zone@base64/Yi9j"].
+Proof. exact C15_proofs.example_history_lemma. Qed.
 
 Example example_constants :
   s_job = of_string "job" /\ s_b64suffix = of_string "@base64" /\ s_metrics = of_string "/metrics/" /\
